@@ -381,6 +381,33 @@ pub fn gen(stream: &str, tier: &str, seed: u64) -> Vec<String> {
                 }
             }
         }
+        "enca" => {
+            let n = if thorough { 20_000 } else { 2_500 };
+            for i in 0..n {
+                let sz = Sizes { big: false };
+                let (fam, text, len) = if i % 2 == 0 {
+                    let p = gen_v3(&mut rng, (i / 2) % V3_TYPES, sz);
+                    ("v3", crate::v3text::show(&p), p.encode().map(|v| v.as_ref().len()).unwrap_or(0))
+                } else {
+                    let p = gen_v5(&mut rng, (i / 2) % V5_TYPES, sz, [0u8, 1, 2][(i / 2) % 3], i);
+                    ("v5", crate::v5text::show(&p), p.encode().map(|v| v.as_ref().len()).unwrap_or(0))
+                };
+                let mut items: Vec<String> = Vec::new();
+                let nitems = rng.below(12);
+                for _ in 0..nitems {
+                    items.push(match rng.below(10) {
+                        0 | 1 => "p".into(),
+                        2 => format!("a{}", len.max(1)),
+                        _ => format!("a{}", 1 + rng.below(9)),
+                    });
+                }
+                if rng.chance(1, 2) {
+                    items.push(if rng.chance(1, 3) { "z".into() } else { format!("e:{}", rng.pick(&KINDS)) });
+                }
+                let sink = if items.is_empty() { "-".to_string() } else { items.join(",") };
+                out.push(format!("enca {} {} {}", fam, sink, text));
+            }
+        }
         "valid" => {
             let n = if thorough { 30_000 } else { 4_000 };
             for i in 0..n {
